@@ -25,6 +25,7 @@ type Prog struct {
 	db          *SpecDB
 	funcs       map[string]*ssa.Function
 	storageSort map[string]string
+	structTypes map[string]types.Type // struct datatype sort name -> Go type (to redeclare it in a later query)
 	repo        string
 	protHeaps   map[string][]*LockSpec
 	loadSecs    float64
